@@ -116,7 +116,8 @@ class VCSStrategyGit(VCSStrategy):
             "-z",
         ]
         result = execute_command(command, _LOGGER, cwd=self.root)
-        all_files = result.stdout.decode("utf-8").split("\0")
+        # File names need not be valid UTF-8. Decode them like the walk does.
+        all_files = os.fsdecode(result.stdout).split("\0")
         return {Path(file_) for file_ in all_files}
 
     def _find_submodules(self) -> set[Path]:
@@ -133,7 +134,7 @@ class VCSStrategyGit(VCSStrategy):
         # The final element may be an empty string. Filter it.
         submodule_entries = [
             entry
-            for entry in result.stdout.decode("utf-8").split("\0")
+            for entry in os.fsdecode(result.stdout).split("\0")
             if entry
         ]
         # Each entry looks a little like 'submodule.submodule.path\nmy_path'.
